@@ -17,7 +17,7 @@ def copy_repo(dst):
     subprocess.check_call(['rsync', '-a', '--exclude', 'target', '--exclude', '.git', REPO + '/', dst + '/'])
 
 
-def dump_mir(workdir=None, features='verif', keep=False):
+def dump_mir(workdir=None, features=None, keep=False):
     """returns (mir_text, info). Builds in a throw-away copy of /repo's working tree."""
     t0 = time.time()
     own = workdir is None
